@@ -330,6 +330,9 @@ func init() {
 		Run: func(c *CaseCtx) CaseResult {
 			var res CaseResult
 			r := caseRand(c.Seed, "C05", c.Idx)
+			if c.Idx%50 == 13 {
+				return runTwinInterfaces(c, r, false)
+			}
 			var s Scenario
 			fam := ""
 			switch x := r.Intn(100); {
